@@ -1,32 +1,53 @@
 #!/usr/bin/env python3
-"""seedrun.py [--kani] [ids...] — apply each seeded change to /repo, run the checks of the property it breaks
-(and optionally others), record which obligations fail, undo the change."""
-import json, os, re, subprocess, sys, glob
+"""seedrun.py [--kani] [--also=ID,ID] [ids...] — apply each seeded change to a SCRATCH COPY of the current /repo tree
+(never to /repo itself: other work may be reading it), run the checks of the property it breaks with
+`--repo <copy>`, and record which obligations fail in seeded/<id>/meta.json."""
+import glob
+import json
+import os
+import re
+import shutil
+import subprocess
+import sys
+import tempfile
+
 VERIF = os.path.abspath(os.path.join(os.path.dirname(__file__), '..'))
 args = [a for a in sys.argv[1:] if not a.startswith('--')]
 kani = '--kani' in sys.argv
 also = [a[7:] for a in sys.argv if a.startswith('--also=')]
 seeds = sorted(glob.glob(os.path.join(VERIF, 'seeded', '*', 'patch.diff')))
+ROOT = '/tmp/verif-scratch-seed'
+os.makedirs(ROOT, exist_ok=True)
 for pd in seeds:
     d = os.path.dirname(pd)
     sid = os.path.basename(d)
     if args and sid not in args:
         continue
     meta = json.load(open(os.path.join(d, 'meta.json')))
-    assert subprocess.run(['git', '-C', '/repo', 'status', '--porcelain', '--untracked-files=no'], capture_output=True, text=True).stdout.strip() == '', '/repo not clean'
-    subprocess.run(['git', '-C', '/repo', 'apply', pd], check=True)
+    tmp = tempfile.mkdtemp(prefix='seed-%s-' % sid, dir=ROOT)
     try:
+        shutil.copytree('/repo/src', os.path.join(tmp, 'src'))
+        for f in ('Cargo.toml', 'Cargo.lock'):
+            shutil.copy(os.path.join('/repo', f), tmp)
+        ap = subprocess.run(['patch', '-p1', '-s', '-d', tmp, '-i', pd], capture_output=True, text=True)
+        if ap.returncode != 0:
+            print(sid, 'patch does not apply:', (ap.stdout + ap.stderr)[:300], flush=True)
+            continue
         res = {}
         for prop in [meta['property']] + (also[0].split(',') if also else []):
-            cmd = [os.path.join(VERIF, 'check'), prop] + ([] if kani else ['--no-kani'])
+            cmd = [os.path.join(VERIF, 'check'), prop, '--repo', tmp, '--evidence-dir', os.path.join(tmp, 'ev')]
+            if not kani:
+                cmd.append('--no-kani')
             p = subprocess.run(cmd, capture_output=True, text=True, cwd=VERIF,
-                               env=dict(os.environ, VERIF_SCRATCH='/tmp/verif-scratch-seed'))
+                               env=dict(os.environ, VERIF_SCRATCH=os.path.join(tmp, 'scratch')))
             obs = re.findall(r'^FAILED-OBLIGATION: (\S+)', p.stdout, re.M)
-            res[prop] = {'exit': p.returncode, 'failed_obligations': obs,
-                         'last': p.stdout.strip().split('\n')[-1][:300]}
+            res[prop + ('+kani' if kani else '')] = {'exit': p.returncode, 'failed_obligations': obs,
+                                                     'last': p.stdout.strip().split('\n')[-1][:300]}
             print(sid, prop, 'exit', p.returncode, obs[:3], flush=True)
-        meta['detected_by'] = res
-        meta['detected'] = any(r['exit'] == 1 for r in res.values())
+        if not isinstance(meta.get('detected_by'), dict):
+            meta['detected_by'] = {}
+        meta['detected_by'].update(res)
+        meta['detected'] = any(r.get('exit') == 1 for r in meta['detected_by'].values())
         json.dump(meta, open(os.path.join(d, 'meta.json'), 'w'), indent=1)
     finally:
-        subprocess.run(['git', '-C', '/repo', 'checkout', '--', '.'], check=True)
+        shutil.rmtree(tmp, ignore_errors=True)
